@@ -731,7 +731,8 @@ func startWatchdog() {
 				buf := make([]byte, 4<<20)
 				n := runtime.Stack(buf, true)
 				dump := string(buf[:n])
-				lockWaiters := strings.Count(dump, "sync.(*Mutex).Lock")
+				lockWaiters := strings.Count(dump, "sync.(*Mutex).Lock") + strings.Count(dump, "sync.(*RWMutex).Lock") +
+					strings.Count(dump, "sync.(*RWMutex).RLock") + strings.Count(dump, "[semacquire") + strings.Count(dump, "[sync.")
 				busy := strings.Count(dump, "[running") + strings.Count(dump, "[runnable") - 1
 				if (lockWaiters == 0 || busy > 0) && stuck < 1200 {
 					continue
